@@ -34,6 +34,18 @@ pub mod heapless {
         pub fn len(&self) -> (r: usize)
             ensures r == self@.len(),
         { unimplemented!() }
+
+        #[verifier::external_body]
+        pub fn capacity(&self) -> (r: usize)
+            ensures r == N,
+        { unimplemented!() }
+
+        #[verifier::external_body]
+        pub fn extend_from_slice(&mut self, other: &[T]) -> (r: Result<(), ()>) where T: Clone
+            ensures
+                old(self)@.len() + other@.len() <= N ==> r is Ok && final(self)@ == old(self)@ + other@,
+                old(self)@.len() + other@.len() > N ==> r is Err && final(self)@ == old(self)@,
+        { unimplemented!() }
     }
 
     impl<T, const N: usize> Default for Vec<T, N> {
